@@ -682,6 +682,9 @@ def str_method(I, v, name, args, kwargs, node):
         if isinstance(a, ZVal) and isinstance(a.ty, TSeq) and isinstance(a.ty.elem, TStr):
             fn = z3.Function("py_join", StrS, z3.SeqSort(StrS), StrS)
             return SStr(fn(t, a.t))
+        if isinstance(a, ZVal) and isinstance(a.ty, TSet) and isinstance(a.ty.elem, TStr):
+            # join over a set: the text depends on the iteration order -- an arbitrary string
+            return SStr(c.fresh("joined_set", StrS))
         raise Unsupported("str.join over symbolic")
     if name == "find":
         return SInt(z3.IndexOf(t, args[0].t, as_int(args[1]) if len(args) > 1 else z3.IntVal(0)))
